@@ -152,6 +152,15 @@ def enum_ops(s, *, invalid=True):
             if not typed:
                 for deep in (False, True):
                     yield {"op": "copy_children", "parent": p, "src": src.uid, "deep": deep}
+                    if p != ROOT:
+                        for via in ("append_child", "prepend_child"):
+                            yield {"op": "addnode", "via": via, "parent": p, "src": src.uid, "deep": deep}
+        if not typed:
+            # the sibling shortcuts with an existing node as source
+            for sib in nodes:
+                for via in ("append_sibling", "prepend_sibling"):
+                    for deep in (None, True):
+                        yield {"op": "addnode", "via": via, "sib": sib.uid, "src": src.uid, "deep": deep}
     # move
     for x in nodes:
         for tgt in holders:
